@@ -106,7 +106,7 @@ def installSnap (st : State) (env : Env) (term result : Nat) : Out :=
 def onLeaderUpdate (st : State) (p l commit : Nat) (voter : Option Bool) : Out :=
   { st := { st with viewPrev := p, viewLast := l, ldrLastIndex := l, ldrCommit := commit,
                     voter := voter.getD st.voter },
-    notes := if p > st.viewPrev then [⟨"removeLTE", p⟩] else [] }
+    notes := if p ≠ st.viewPrev then [⟨"removeLTE", p⟩] else [] }
 
 end Repl
 end Raft
